@@ -10,8 +10,8 @@ import (
 	"net/http/httptest"
 	"os"
 	"path/filepath"
-	"strings"
 	"reflect"
+	"strings"
 	"sync"
 	"sync/atomic"
 	"time"
@@ -178,7 +178,7 @@ func (sc *storeCase) newInst() (*storeInst, error) {
 		flaky := &atomic.Bool{}
 		srv := httptest.NewServer(http.HandlerFunc(func(w http.ResponseWriter, r *http.Request) {
 			if r.Method == http.MethodPost && flaky.CompareAndSwap(true, false) {
-				mux.ServeHTTP(httptest.NewRecorder(), r) // the server stores the event …
+				mux.ServeHTTP(httptest.NewRecorder(), r)            // the server stores the event …
 				http.Error(w, "bad gateway", http.StatusBadGateway) // … but the answer is lost on the way back
 				return
 			}
